@@ -231,6 +231,28 @@ Proof.
   destruct k; cbn [apply_kind]; try congruence; rewrite !curq_join; eapply join_joined; eauto using fresh_seg_ok.
 Qed.
 
+Lemma curq_apply_kind_12 nq st q1 q2 k : segs_ok nq st -> q1 < nq -> q2 < nq -> q1 <> q2 ->
+  curq (apply_kind st q1 q2 k) q1 = match k with Leave | CutGate | CutRight => curq st q1 | CutLeft | CutBoth => slen st end /\
+  curq (apply_kind st q1 q2 k) q2 =
+    match k with Leave | CutGate | CutLeft => curq st q2 | CutRight => slen st | CutBoth => S (slen st) end.
+Proof.
+  intros OK Q1 Q2 NQ. rewrite !(curq_apply_kind nq) by auto.
+  assert (E21 : Nat.eqb q2 q1 = false) by (apply Nat.eqb_neq; auto).
+  assert (E12 : Nat.eqb q1 q2 = false) by (apply Nat.eqb_neq; auto).
+  rewrite !Nat.eqb_refl, E12, E21. destruct k; auto.
+Qed.
+
+(* replace the current segments after the step by variables x1, x2 with their values C1, C2 *)
+Ltac cur12 OK Q1 Q2 NQ SE :=
+  match goal with
+  | |- context [apply_kind ?st ?q1 ?q2 ?k] =>
+      let C1 := fresh "C1" in let C2 := fresh "C2" in
+      destruct (curq_apply_kind_12 _ st q1 q2 k OK Q1 Q2 NQ) as [C1 C2];
+      revert SE C1 C2;
+      generalize (curq (apply_kind st q1 q2 k) q1), (curq (apply_kind st q1 q2 k) q2);
+      intros x1 x2 SE C1 C2
+  end.
+
 (* well-formed gate lists of the specification *)
 Definition sgates_wf (nq : nat) (gs : list sgate) : Prop :=
   forall q1 q2 gam, In (q1, q2, gam) gs -> q1 < nq /\ q2 < nq /\ q1 <> q2.
@@ -301,21 +323,17 @@ Lemma norm_leave_facts F nq st q1 q2 k : segs_ok nq st -> q1 < nq -> q2 < nq -> 
   Fl F (curq st q1) = Fl F (curq st q2) /\
   Fl F (curq st1 q1) = Fl F (curq st q1) /\ Fl F (curq st1 q2) = Fl F (curq st q2).
 Proof.
-  intros OK Q1 Q2 NQ [_ SE] N st1. subst st1.
-  pose proof (fun q => curq_apply_kind nq st q1 q2 k q OK Q1 Q2) as C.
-  assert (E21 : Nat.eqb q2 q1 = false) by (apply Nat.eqb_neq; auto).
-  assert (E12 : Nat.eqb q1 q2 = false) by (apply Nat.eqb_neq; auto).
-  destruct k; unfold norm_kind in N; cbn beta iota zeta in N.
-  - specialize (SE ltac:(discriminate)). rewrite !C in *. auto.
-  - destruct (Nat.eqb_spec (Fl F (curq st q1)) (Fl F (curq st q2))) as [E|]; [|discriminate]. rewrite !C. auto.
+  intros OK Q1 Q2 NQ [_ SE] N st1. subst st1. cur12 OK Q1 Q2 NQ SE.
+  destruct k; unfold norm_kind in N; cbn beta iota zeta in N; subst x1 x2.
+  - specialize (SE ltac:(discriminate)). auto.
+  - destruct (Nat.eqb_spec (Fl F (curq st q1)) (Fl F (curq st q2))) as [E|]; [|discriminate]. auto.
   - destruct (Nat.eqb_spec (Fl F (curq st q1)) (Fl F (curq st q2))) as [E|]; [|discriminate].
-    specialize (SE ltac:(discriminate)). rewrite !C in *. rewrite Nat.eqb_refl, E21 in *. split; [exact E|]. split; congruence.
+    specialize (SE ltac:(discriminate)). split; [exact E|]. split; congruence.
   - destruct (Nat.eqb_spec (Fl F (curq st q1)) (Fl F (curq st q2))) as [E|]; [|discriminate].
-    specialize (SE ltac:(discriminate)). rewrite !C in *. rewrite Nat.eqb_refl, E12 in *. split; [exact E|]. split; congruence.
+    specialize (SE ltac:(discriminate)). split; [exact E|]. split; congruence.
   - destruct (Nat.eqb_spec (Fl F (curq st q1)) (Fl F (slen st))) as [Ea|]; [|destruct (Nat.eqb _ _); discriminate].
     destruct (Nat.eqb_spec (Fl F (curq st q2)) (Fl F (slen st))) as [Eb|]; [|discriminate].
-    specialize (SE ltac:(discriminate)). rewrite !C in *. rewrite !Nat.eqb_refl, E12 in *.
-    split; [congruence|]. split; congruence.
+    specialize (SE ltac:(discriminate)). split; [congruence|]. split; congruence.
 Qed.
 
 Lemma norm_gate_facts F st q1 q2 k : norm_kind F st q1 q2 k = CutGate ->
@@ -328,8 +346,8 @@ Proof.
   - destruct (Nat.eqb _ _), (Nat.eqb _ _); discriminate.
 Qed.
 
-(* outcome left cut: the new segment of q1 is slen st; it and the (new) current segment of q2 lie in the final
-   component L of the old segment of q2, the old segment of q1 does not *)
+(* outcome left cut: the first fresh segment slen st and the (new) current segment of q2 lie in the final
+   component of the old segment of q2, the old segment of q1 does not *)
 Lemma norm_left_facts F nq st q1 q2 k : segs_ok nq st -> q1 < nq -> q2 < nq -> q1 <> q2 ->
   step_facts F nq st q1 q2 k -> norm_kind F st q1 q2 k = CutLeft ->
   let st1 := apply_kind st q1 q2 k in
@@ -337,45 +355,36 @@ Lemma norm_left_facts F nq st q1 q2 k : segs_ok nq st -> q1 < nq -> q2 < nq -> q
   Fl F (curq st q1) <> Fl F (curq st q2) /\ Fl F (slen st) = Fl F (curq st q2) /\
   Fl F (curq st1 q1) = Fl F (curq st q2) /\ Fl F (curq st1 q2) = Fl F (curq st q2).
 Proof.
-  intros OK Q1 Q2 NQ [_ SE] N st1. subst st1.
-  pose proof (fun q => curq_apply_kind nq st q1 q2 k q OK Q1 Q2) as C.
-  assert (E21 : Nat.eqb q2 q1 = false) by (apply Nat.eqb_neq; auto).
-  assert (E12 : Nat.eqb q1 q2 = false) by (apply Nat.eqb_neq; auto).
-  destruct k; unfold norm_kind in N; cbn beta iota zeta in N; try discriminate.
+  intros OK Q1 Q2 NQ [_ SE] N st1. subst st1. cur12 OK Q1 Q2 NQ SE.
+  destruct k; unfold norm_kind in N; cbn beta iota zeta in N; subst x1 x2; try discriminate.
   - destruct (Nat.eqb _ _); discriminate.
   - destruct (Nat.eqb_spec (Fl F (curq st q1)) (Fl F (curq st q2))) as [|NE]; [discriminate|].
-    specialize (SE ltac:(discriminate)). rewrite !C in *. rewrite Nat.eqb_refl, E21 in *. cbn [kw]. auto.
+    specialize (SE ltac:(discriminate)). cbn [kw]. auto.
   - destruct (Nat.eqb _ _); discriminate.
   - destruct (Nat.eqb_spec (Fl F (curq st q1)) (Fl F (slen st))) as [|Na]; [destruct (Nat.eqb _ _); discriminate|].
     destruct (Nat.eqb_spec (Fl F (curq st q2)) (Fl F (slen st))) as [Eb|]; [|discriminate].
-    specialize (SE ltac:(discriminate)). rewrite !C in *. rewrite !Nat.eqb_refl, E12 in *. cbn [kw].
+    specialize (SE ltac:(discriminate)). cbn [kw].
     repeat split; try lia; congruence.
 Qed.
 
+(* outcome right cut: the first fresh segment slen st lies in the final component of the old segment of q1 *)
 Lemma norm_right_facts F nq st q1 q2 k : segs_ok nq st -> q1 < nq -> q2 < nq -> q1 <> q2 ->
   step_facts F nq st q1 q2 k -> norm_kind F st q1 q2 k = CutRight ->
   let st1 := apply_kind st q1 q2 k in
   1 <= kw k /\
-  Fl F (curq st q1) <> Fl F (curq st q2) /\
-  (* the first fresh segment that carries the label of q1's old segment *)
-  (exists n, slen st <= n < slen st + kw k /\ Fl F n = Fl F (curq st q1) /\ (n = slen st \/ Fl F (slen st) = Fl F n)) /\
+  Fl F (curq st q1) <> Fl F (curq st q2) /\ Fl F (slen st) = Fl F (curq st q1) /\
   Fl F (curq st1 q1) = Fl F (curq st q1) /\ Fl F (curq st1 q2) = Fl F (curq st q1).
 Proof.
-  intros OK Q1 Q2 NQ [_ SE] N st1. subst st1.
-  pose proof (fun q => curq_apply_kind nq st q1 q2 k q OK Q1 Q2) as C.
-  assert (E21 : Nat.eqb q2 q1 = false) by (apply Nat.eqb_neq; auto).
-  assert (E12 : Nat.eqb q1 q2 = false) by (apply Nat.eqb_neq; auto).
-  destruct k; unfold norm_kind in N; cbn beta iota zeta in N; try discriminate.
+  intros OK Q1 Q2 NQ [_ SE] N st1. subst st1. cur12 OK Q1 Q2 NQ SE.
+  destruct k; unfold norm_kind in N; cbn beta iota zeta in N; subst x1 x2; try discriminate.
   - destruct (Nat.eqb _ _); discriminate.
   - destruct (Nat.eqb _ _); discriminate.
   - destruct (Nat.eqb_spec (Fl F (curq st q1)) (Fl F (curq st q2))) as [|NE]; [discriminate|].
-    specialize (SE ltac:(discriminate)). rewrite !C in *. rewrite Nat.eqb_refl, E12 in *. cbn [kw].
-    repeat split; auto. exists (slen st). repeat split; auto; lia.
+    specialize (SE ltac:(discriminate)). cbn [kw]. auto.
   - destruct (Nat.eqb_spec (Fl F (curq st q1)) (Fl F (slen st))) as [Ea|]; [|destruct (Nat.eqb _ _); discriminate].
     destruct (Nat.eqb_spec (Fl F (curq st q2)) (Fl F (slen st))) as [|Nb]; [discriminate|].
-    specialize (SE ltac:(discriminate)). rewrite !C in *. rewrite !Nat.eqb_refl, E12 in *. cbn [kw].
-    repeat split; try lia; try congruence.
-    exists (slen st). repeat split; auto; lia.
+    specialize (SE ltac:(discriminate)). cbn [kw].
+    repeat split; try lia; congruence.
 Qed.
 
 Lemma norm_both_facts F nq st q1 q2 k : segs_ok nq st -> q1 < nq -> q2 < nq -> q1 <> q2 ->
@@ -385,13 +394,11 @@ Lemma norm_both_facts F nq st q1 q2 k : segs_ok nq st -> q1 < nq -> q2 < nq -> q
   Fl F (curq st q1) <> Fl F (slen st) /\ Fl F (curq st q2) <> Fl F (slen st) /\
   curq st1 q1 = slen st /\ curq st1 q2 = S (slen st).
 Proof.
-  intros OK Q1 Q2 NQ [_ SE] N st1. subst st1.
-  pose proof (fun q => curq_apply_kind nq st q1 q2 k q OK Q1 Q2) as C.
-  assert (E12 : Nat.eqb q1 q2 = false) by (apply Nat.eqb_neq; auto).
-  destruct k; unfold norm_kind in N; cbn beta iota zeta in N; try discriminate; try (destruct (Nat.eqb _ _); discriminate).
+  intros OK Q1 Q2 NQ [_ SE] N st1. subst st1. cur12 OK Q1 Q2 NQ SE.
+  destruct k; unfold norm_kind in N; cbn beta iota zeta in N; subst x1 x2; try discriminate; try (destruct (Nat.eqb _ _); discriminate).
   destruct (Nat.eqb_spec (Fl F (curq st q1)) (Fl F (slen st))) as [|Na]; [destruct (Nat.eqb _ _); discriminate|].
   destruct (Nat.eqb_spec (Fl F (curq st q2)) (Fl F (slen st))) as [|Nb]; [discriminate|].
-  specialize (SE ltac:(discriminate)). rewrite !C in *. rewrite !Nat.eqb_refl, E12 in *. auto.
+  specialize (SE ltac:(discriminate)). repeat split; auto.
 Qed.
 
 (* the current segments of the other qubits do not move *)
@@ -513,12 +520,9 @@ Proof.
   destruct (WF q1 q2 gam (or_introl eq_refl)) as (Q1 & Q2 & NQ).
   assert (WF' : sgates_wf nq gs) by (intros a b g I; apply (WF a b g); right; exact I).
   cbn [wcount]. rewrite (IH _ _ _ _ _ WF' (apply_kind_ok nq st q1 q2 k OK) H' EF).
-  pose proof (fun q => curq_apply_kind nq st q1 q2 k q OK Q1 Q2) as C.
-  assert (E21 : Nat.eqb q2 q1 = false) by (apply Nat.eqb_neq; auto).
-  assert (E12 : Nat.eqb q1 q2 = false) by (apply Nat.eqb_neq; auto).
+  destruct (curq_apply_kind_12 nq st q1 q2 k OK Q1 Q2 NQ) as [C1 C2]. rewrite C1, C2 in SE.
   rewrite slen_apply_kind in SL. destruct OK as [_ B]. pose proof (B q1 Q1) as B1. pose proof (B q2 Q2) as B2.
-  destruct k; cbn [kw] in *; try reflexivity; exfalso; specialize (SE ltac:(discriminate)); rewrite !C in SE;
-    rewrite ?Nat.eqb_refl, ?E21, ?E12 in SE.
+  destruct k; cbn [kw] in *; try reflexivity; exfalso; specialize (SE ltac:(discriminate)).
   - assert (2 <= W); [|lia]. apply (two_same_label F W (curq st q2) (slen st)); auto; lia.
   - assert (2 <= W); [|lia]. apply (two_same_label F W (curq st q1) (slen st)); auto; lia.
   - assert (2 <= W); [|lia]. apply (two_same_label F W (slen st) (S (slen st))); auto; lia.
